@@ -22,7 +22,7 @@ using hx::Pair;
 namespace lg = gmlc::libguarded;
 
 // ------------------------------------------------------------------ history
-enum HK : uint8_t { HK_RMW, HK_READ, HK_WRITE, HK_XCHG, HK_CAS, HK_NONE };
+enum HK : uint8_t { HK_RMW, HK_READ, HK_WRITE, HK_XCHG, HK_CAS, HK_NONE, HK_MAYBE_WRITE };
 struct Hist {
     uint8_t kind;
     int arg;  // value written / expected
